@@ -18,6 +18,11 @@ use white_whale_std::vault_network::vault_factory as fmsg;
 use white_whale_std::vault_network::vault_router as rmsg;
 
 pub const DENOM: &str = "uwhale";
+/// an IBC voucher denom (`ibc/` + 64 hex characters)
+pub const IBC_DENOM: &str = "ibc/27394FB092D2ECCD56123C74F36E4C1F926001CEADA9CA97EA622B25F41E5EB2";
+/// the denom of a native vault: vaults whose burn fee share has odd atomics sit on the IBC denom (a deterministic function of the
+/// case, so replays rebuild the same world); the model knows native / cw20 only
+pub fn native_denom(fees: (u128, u128, u128)) -> &'static str { if fees.2 % 2 == 1 { IBC_DENOM } else { DENOM } }
 pub const COLLECTOR: &str = "collector";
 pub const FOWNER: &str = "owner";
 pub const USERS: [&str; 3] = ["alice", "bob", "carol"];
@@ -306,11 +311,13 @@ fn wrap_cw20() -> Box<dyn Contract<Empty>> {
 pub fn deploy(cw20: bool, fees: (u128, u128, u128), funds: [u128; 5]) -> Result<VaultWorld, String> {
     let people: Vec<&str> = vec![FOWNER, USERS[0], USERS[1], USERS[2]];
     let mut app: App = AppBuilder::new().with_bank(BankKeeper::new()).build(|router, _api, storage| {
-        if !cw20 {
-            for (i, a) in people.iter().enumerate() {
-                let amt = funds[i] + if i == 0 { funds[4] } else { 0 };
-                // every funded account also holds a token the vault has nothing to do with (mis-attached funds)
-                if amt > 0 { router.bank.init_balance(storage, &Addr::unchecked(*a), vec![coin(u128::MAX / 8, "ujunk"), coin(amt, DENOM)]).unwrap(); }
+        for (i, a) in people.iter().enumerate() {
+            let amt = funds[i] + if i == 0 { funds[4] } else { 0 };
+            // every funded account also holds a token the vault has nothing to do with (mis-attached funds)
+            if amt > 0 {
+                let mut coins = vec![coin(u128::MAX / 8, "ujunk")];
+                if !cw20 { coins.push(coin(amt, native_denom(fees))); }
+                router.bank.init_balance(storage, &Addr::unchecked(*a), coins).unwrap();
             }
         }
     });
@@ -328,7 +335,7 @@ pub fn deploy(cw20: bool, fees: (u128, u128, u128), funds: [u128; 5]) -> Result<
             name: "vault asset".into(), symbol: "VASSET".into(), decimals: 6, initial_balances: balances,
             mint: Some(MinterResponse { minter: FOWNER.to_string(), cap: None }), marketing: None }, &[], "asset", None).map_err(|e| format!("{:#}", e))?;
         AssetInfo::Token { contract_addr: a.to_string() }
-    } else { AssetInfo::NativeToken { denom: DENOM.to_string() } };
+    } else { AssetInfo::NativeToken { denom: native_denom(fees).to_string() } };
     let factory = app.instantiate_contract(factory_code, owner.clone(), &fmsg::InstantiateMsg {
         owner: FOWNER.to_string(), vault_id: vault_code, token_id: token_code, fee_collector_addr: COLLECTOR.to_string() }, &[], "factory", None)
         .map_err(|e| format!("{:#}", e))?;
@@ -482,7 +489,9 @@ impl VaultWorld {
             }
             Op::Withdraw { u, amount } => self.app.execute_contract(self.addr(*u), self.lp.clone(),
                 &Cw20ExecuteMsg::Send { contract: vault_addr.to_string(), amount: *amount, msg: to_json_binary(&vmsg::Cw20HookMsg::Withdraw {})? }, &[]),
-            Op::WithdrawDirect { u } => self.app.execute_contract(self.addr(*u), vault_addr, &vmsg::ExecuteMsg::Withdraw {}, &[]),
+            // the token-factory entry: odd account indices attach coins of a denom that is not the (cw20) share token
+            Op::WithdrawDirect { u } => { let f = if *u % 2 == 1 { vec![coin(100 + 37 * *u as u128, "ujunk")] } else { vec![] };
+                                          self.app.execute_contract(self.addr(*u), vault_addr, &vmsg::ExecuteMsg::Withdraw {}, &f) }
             Op::Collect { u } => self.app.execute_contract(self.addr(*u), vault_addr, &vmsg::ExecuteMsg::CollectProtocolFees {}, &[]),
             Op::Update { u, via_factory, p } => {
                 let params = self.upd_params(p);
